@@ -2,6 +2,7 @@ package main
 
 import (
 	"fmt"
+	"html"
 	"strings"
 )
 
@@ -61,7 +62,7 @@ type MediaInfo struct {
 
 type TableInfo struct {
 	ID    int
-	Mark  string // unique token in the first cell
+	Mark  string    // unique token in the first cell
 	Rows  [][][]int // rows -> cells -> tokens
 	Data  bool
 	Where string
@@ -76,6 +77,7 @@ type Ledger struct {
 	Tables []TableInfo
 	Title  string
 	Kinds  map[string]int // block kinds generated
+	MXSS   int            // mXSS carriers written
 }
 
 type Profile struct {
@@ -100,6 +102,7 @@ type Profile struct {
 	AttrNoise    bool
 	RelURLs      bool // all reference forms (otherwise root-relative only)
 	MediaInText  bool // media inside paragraphs / list items
+	MXSS         bool // inert text that serialise+parse can turn into live markup (foreign content)
 	Punct        bool // attach / detach punctuation around words
 	NonASCII     bool // sprinkle non-ASCII filler words between tokens (only for pages delivered as trees)
 	Unlikely     int  // per-mille of wrappers that carry an "unlikely content" class / id / role
@@ -352,7 +355,36 @@ func (g *ArtGen) where() string {
 var inlineTags = []string{"b", "i", "em", "strong", "span", "u", "code", "font"}
 
 // hiddenInline emits an inline hidden carrier.
+// mxssPayload is inert where the generator puts it: it is text (escaped, or
+// the content of a raw-text element).
+const mxssPayload = `<img src=x onerror=zo() id=zi class=zc style=color:red><script>zs()</script><style>p{color:red}</style>`
+
+// mxssInline writes markup whose text content looks like active markup. In
+// the source it is text; it stays text only as long as the element names and
+// namespaces around it survive serialisation and parsing unchanged.
+func (g *ArtGen) mxssInline(allowTable bool) {
+	n := 2
+	if allowTable {
+		n = 3
+	}
+	switch g.r.Intn(n) {
+	case 0: // elements that are raw-text elements in HTML, used as (unknown) MathML / SVG elements
+		el := []string{"xmp", "noembed", "noframes", "iframe", "noscript"}[g.r.Intn(5)]
+		ns := []string{"math", "math", "svg"}[g.r.Intn(3)]
+		g.w(` <` + ns + `><` + el + `>` + html.EscapeString(mxssPayload) + `</` + el + `></` + ns + `> `)
+	case 1: // an HTML integration point that exists through an attribute
+		g.w(` <math><annotation-xml encoding="text/html">x<xmp>` + mxssPayload + `</xmp></annotation-xml></math> `)
+	case 2: // an HTML element fostered out of a table inside a MathML text integration point
+		g.w(` <math><mtext><table><mglyph><xmp></math>` + mxssPayload + `</xmp></mglyph></table></mtext></math> `)
+	}
+	g.L.MXSS++
+}
+
 func (g *ArtGen) hiddenInline() {
+	if g.P.MXSS && g.r.Chance(1, 3) {
+		g.mxssInline(false)
+		return
+	}
 	switch g.r.Intn(5) {
 	case 0:
 		g.w(` <span style="display:none">` + g.toksK(2, KHidden, "display-none") + `</span> `)
@@ -826,7 +858,11 @@ func (g *ArtGen) dataTable() {
 			case 3:
 				if g.P.Hidden {
 					g.w(g.toks(1))
-					g.hiddenInline()
+					if g.P.MXSS && g.r.Chance(1, 2) {
+						g.mxssInline(true)
+					} else {
+						g.hiddenInline()
+					}
 					if g.r.Chance(1, 2) {
 						g.w(`<script>` + g.toksK(1, KHidden, "script") + `</script>`)
 					}
